@@ -615,14 +615,14 @@ def r5_one_derivation_of_is_method(ctx):
     ctx.require(n >= 3, "expected the generator, the rewriter and the dependent wrapper to thread self")
 
 
-def _with_fallback(ctx, laws, fallback):
+def _with_fallback(ctx, laws, fallback, configs=None):
     """Decide on the abstractly executed entry point; if the generator uses a construct the interpreter does not
     model, fall back to reading its emission skeleton."""
     from . import entrygen
 
     n0 = len(ctx.obs)
     try:
-        entrygen.law(ctx, *laws)
+        entrygen.law(ctx, *laws, configs=configs)
     except AnalysisError as e:
         del ctx.obs[n0:]
         from .common import run_fallback
